@@ -12,6 +12,18 @@ CHECKS = {
             "Trusted: the Python reference (ref_num.py) and the canonical encoder hook. Operands outside the alphabet are not covered; "
             "inexact n-ary folds, float formatting and (/ x 0) with inexact x are left unspecified.",
             "DESIGN.md §3 C10"),
+    "C19": ("model_checking",
+            "explicit-state BFS over heap-graph event histories executed on the real engine (state = canonical form of a Python twin of the heap graph; every (state, enabled event) pair executed by replaying the state's shortest history on a fresh engine), plus exhaustive pattern x thread-count grid of bounded-live-set loops with heap statistics sampled after forced collections",
+            "Events: allocate box / mutable vector / mutable struct into one of 3 global roots (set! or re-define), link, self-link, unlink, drop, capture in a closure / in a "
+            "continuation and drop those, self-capturing closure garbage, garbage made by a finished thread, weak box, full collection; at most 4 objects alive or pending. "
+            "After every event, for both free lists (hook H6): alloc_count == number of free slots, the slot under the cursor is free; after every collection: slots in use == "
+            "baseline + cost of exactly the twin's reachable objects (leak and premature reclamation are distinguished); a weak box with unreachable target answers #f. "
+            "Depth 4 (thorough 5); second BFS with a forced full collection at every allocation (hook H4). Boundedness: 16 garbage patterns (acyclic, cycles of length 1..4 "
+            "through each container kind and mixed, closure cycles, dead continuation, shadowed global, bounded queue) x {1, 2} threads, full collection and statistics "
+            "sample every 500 iterations: slots in use after a collection constant, accounting invariant at every sample, peak slot count of successive growth/compaction "
+            "cycles not rising; thorough adds the natural policy (no explicit collections) over an iteration ladder up to 3*10^7.",
+            "Slot cost per kind is calibrated once on the initial state. With a second running thread only a trend can be judged. Weak boxes with reachable targets are C04's subject.",
+            "DESIGN.md §3 C19"),
     "C14": ("exploration",
             "small-scope exhaustive enumeration of module graphs x export profiles x require modifiers x orders of requiring programs on one real engine, against a Python visibility/instantiation model; exhaustive contract-boundary argument grid",
             "Graphs {single, chain, fan-in, diamond, chain of 3} over generated files; every module has a private helper of the same spelling, x / y in {absent, private, "
